@@ -70,6 +70,13 @@ def drive(tier):
     for s in ["0", "O", "I", "l", "1O", "abc0", " 1", "1 ", "é", "+", "/", "11I", "z" * 40 + "0"] + wide + ["1" + w for w in wide[:20]] + [w + "2" for w in wide[:20]]:
         dec(s)
         check(s)
+    for kz in list(range(1, 45)):
+        dec("z" * kz)
+        dec("z" * kz + "".join(r.choice(ALPHA) for _ in range(r.randrange(0, 6))))
+        dec("2" + "1" * kz)                     # exactly 58^kz
+        for delta in (-1, 0, 1):
+            v = 58 ** kz + delta
+            enc(v.to_bytes((v.bit_length() + 7) // 8, "big"))
     # every version byte x payload lengths
     valid = []
     for ver in range(256):
